@@ -276,6 +276,11 @@ func (rv *PostingsList) read(postingsOffset uint64, d *Dictionary) error {
 		return rv.init1Hit(postingsOffset)
 	}
 
+	// not a "1-hit" encoding: forget any 1-hit state left by an earlier read
+	// into this (reused) postings list
+	rv.docNum1Hit = 0
+	rv.normBits1Hit = 0
+
 	// read the location of the freq/norm details
 	var n uint64
 	var read int
